@@ -1,8 +1,431 @@
 package main
 
-// Negative controls (thorough tier): mutations of go-debian's own source applied
-// through packages.Config.Overlay. Filled in per property in controls_*.go.
+// Negative controls (thorough tier): single realistic edits of go-debian's own
+// source, applied in memory through packages.Config.Overlay (no scratch copy of
+// the repository, nothing written to /repo). Each control must still type-check
+// and must make the named rule report a violation. A control whose rule stays
+// silent fails the thorough check: the checker, not the library, is broken.
+//
+// Controls come from two places: the substitution table below (the repaired
+// defects re-introduced, plus edits from DESIGN.md Appendix B) and every seeded
+// change under /verif/seeded/<id>/patch.diff.
 
-func runControls(prop string, rp *Report) {}
+import (
+	"encoding/json"
+	"fmt"
+	"os"
+	"os/exec"
+	"path/filepath"
+	"sort"
+	"strings"
+	"sync"
+)
 
-func runControl(prop, name string) int { return 2 }
+type control struct {
+	Prop string
+	Name string
+	File string // relative to /repo
+	Old  string
+	New  string
+	Rule string // expected rule prefix ("" = any rule of the property)
+}
+
+var controlTable = []control{
+	// C01 / C02
+	{"C01", "drop-punct-bias", "version/version.go", "return int(r) + 256", "return int(r)", "C01-"},
+	{"C01", "tilde-weighs-zero", "version/version.go", "if r == '~' {\n\t\treturn -1", "if r == '~' {\n\t\treturn 0", "C01-"},
+	{"C01", "no-zero-skipping", "version/version.go", "for i < len(a) && a[i] == '0' {\n\t\t\ti++\n\t\t}", "", "C01-RUN"},
+	{"C01", "last-difference-wins", "version/version.go", "if first_diff == 0 {\n\t\t\t\tfirst_diff = int(rune(a[i]) - rune(b[j]))\n\t\t\t}", "first_diff = int(rune(a[i]) - rune(b[j]))", "C01-RUN"},
+	{"C01", "longer-run-rule-dropped", "version/version.go", "if i < len(a) && cisdigit(rune(a[i])) {\n\t\t\treturn 1\n\t\t}", "", "C01-RUN"},
+	{"C01", "revision-before-upstream", "version/version.go", "rc := verrevcmp(a.Version, b.Version)\n\tif rc != 0 {\n\t\treturn rc\n\t}\n\n\treturn verrevcmp(a.Revision, b.Revision)", "rc := verrevcmp(a.Revision, b.Revision)\n\tif rc != 0 {\n\t\treturn rc\n\t}\n\n\treturn verrevcmp(a.Version, b.Version)", "C01-SEQ"},
+	{"C01", "epoch-ignored", "version/version.go", "if a.Epoch > b.Epoch {\n\t\treturn 1\n\t}", "", "C01-SEQ"},
+	{"C02", "exhausted-second-operand-weighs-minus-one", "version/version.go", "bc := 0\n\t\t\tif j < len(b) {", "bc := -1\n\t\t\tif j < len(b) {", "C02-EQUIV"},
+	{"C02", "less-is-not-strict", "version/version.go", "return Compare(a[i], a[j]) < 0", "return Compare(a[i], a[j]) <= 0", "C02-SORT"},
+	{"C02", "swap-assigns-one-way", "version/version.go", "a[i], a[j] = a[j], a[i]", "a[i] = a[j]", "C02-SORT"},
+	// C03
+	{"C03", "json-quoted-marshaltext", "version/version.go", "return []byte(version.String()), nil", "return []byte(\"\\\"\" + version.String() + \"\\\"\"), nil", "C03-CODEC"},
+	{"C03", "epoch-not-reset", "version/version.go", "result.Epoch = 0\n\tresult.Revision = \"\"\n", "result.Revision = \"\"\n", "C03-RESET"},
+	{"C03", "empty-upstream-accepted", "version/version.go", "if len(result.Version) == 0 {\n\t\treturn fmt.Errorf(\"version number is empty\")\n\t}\n\tif !unicode.IsDigit(rune(result.Version[0])) {", "if len(result.Version) > 0 && !unicode.IsDigit(rune(result.Version[0])) {", "C03-GUARDS"},
+	{"C03", "embedded-space-test-removed", "version/version.go", "if strings.IndexFunc(trimmed, unicode.IsSpace) != -1 {\n\t\treturn fmt.Errorf(\"version string has embedded spaces\")\n\t}", "", "C03-GUARDS"},
+	{"C03", "epoch-at-last-colon", "version/version.go", "colon := strings.Index(trimmed, \":\")", "colon := strings.LastIndex(trimmed, \":\")", "C03-GUARDS"},
+	{"C03", "underscore-admitted", "version/version.go", "c != '.' && c != '-' && c != '+' && c != '~' && c != ':'", "c != '.' && c != '-' && c != '+' && c != '~' && c != ':' && c != '_'", "C03-ALPHA"},
+	{"C03", "ambiguous-render-again", "version/version.go", "if v.Epoch > 0 || strings.Contains(v.Version, \":\") {", "if v.Epoch > 0 {", "C03-RENDER"},
+	{"C03", "epoch-64-bits-again", "version/version.go", "strconv.ParseInt(trimmed[:colon], 10, strconv.IntSize)", "strconv.ParseInt(trimmed[:colon], 10, 64)", "C03-EPOCHWIDTH"},
+	// C04
+	{"C04", "newline-not-a-name-terminator", "dependency/parser.go", "case ' ', '\\t', '\\r', '\\n', '(':\n\t\t\terr := parsePossibilityControllers(input, ret)", "case ' ', '\\t', '\\r', '(':\n\t\t\terr := parsePossibilityControllers(input, ret)", "C04-TOKENS"},
+	{"C04", "anything-after-substvar", "dependency/parser.go", "default:\n\t\t\t\treturn fmt.Errorf(\"Trailing garbage after a substvar: %c\", peek)", "default:\n\t\t\t\trelation.Possibilities = append(relation.Possibilities, *ret)\n\t\t\t\treturn nil", "C04-LANG"},
+	{"C04", "second-version-guard-removed", "dependency/parser.go", "if possi.Version != nil {", "if false {", "C04-LANG"},
+	{"C04", "second-arch-guard-removed", "dependency/parser.go", "if len(possi.Architectures.Architectures) != 0 {", "if false {", "C04-LANG"},
+	{"C04", "mixed-negation-accepted", "dependency/parser.go", "} else if possi.Architectures.Not != hasNot {", "} else if false {", "C04-LANG"},
+	{"C04", "eof-in-version-accepted", "dependency/parser.go", "return errors.New(\"Oh no. Reached EOF before Number finished\")", "return nil", "C04-LANG"},
+	{"C04", "blank-before-paren-in-number", "dependency/parser.go", "case ' ', '\\t', '\\r', '\\n':\n\t\t\teatWhitespace(input)\n\t\t\tif input.Peek() != ')' {\n\t\t\t\treturn errors.New(\"Trailing garbage after a Version number\")\n\t\t\t}\n\t\t\treturn nil\n", "", "C04-TOKENS"},
+	{"C04", "error-of-relation-dropped", "dependency/parser.go", "err := parseRelation(input, ret)\n\t\tif err != nil {\n\t\t\treturn err\n\t\t}", "parseRelation(input, ret)", "C04-"},
+	// C05
+	{"C05", "substvar-flag-ignored", "dependency/string.go", "if possi.Substvar {\n\t\treturn \"${\" + possi.Name + \"}\"\n\t}\n", "", "C05-"},
+	{"C05", "qualifier-not-rendered", "dependency/string.go", "if possi.Arch != nil {\n\t\tstr += \":\" + possi.Arch.String()\n\t}\n", "", "C05-"},
+	{"C05", "stage-negation-not-rendered", "dependency/string.go", "if stage.Not {\n\t\treturn \"!\" + stage.Name\n\t}\n", "", "C05-"},
+	{"C05", "linux-elided-again", "dependency/string.go", "if a.ABI == \"any\" {\n\t\t\treturn a.OS + \"-\" + a.CPU\n\t\t}", "if a.ABI == \"any\" {\n\t\t\tif a.OS == \"linux\" {\n\t\t\t\treturn a.CPU\n\t\t\t}\n\t\t\treturn a.OS + \"-\" + a.CPU\n\t\t}", "C05-ARCH"},
+	{"C05", "byte-re-encoded-again", "dependency/parser.go", "ret.Name += string([]byte{input.Next()})\n\t}\n}\n\nfunc parseSubstvar", "ret.Name += string(input.Next())\n\t}\n}\n\nfunc parseSubstvar", "C05-BYTES"},
+	{"C05", "empty-relation-stored-again", "dependency/parser.go", "if len(ret.Possibilities) > 0 {\n\t\t\t\tdependency.Relations = append(dependency.Relations, *ret)\n\t\t\t}", "dependency.Relations = append(dependency.Relations, *ret)", "C05-"},
+	// C06
+	{"C06", "ge-becomes-gt", "dependency/dependency.go", "case \">=\":\n\t\treturn q >= 0", "case \">=\":\n\t\treturn q > 0", "C06-SAT"},
+	{"C06", "compare-operands-swapped", "dependency/dependency.go", "q := version.Compare(ver, vVer)", "q := version.Compare(vVer, ver)", "C06-SAT"},
+	{"C06", "matches-returns-not-on-hit", "dependency/arch.go", "return !not\n\t\t}", "return not\n\t\t}", "C06-SET"},
+	{"C06", "empty-list-admits-nothing", "dependency/arch.go", "/* We're not a thing. Always true. */\n\t\treturn true", "return false", "C06-SET"},
+	{"C06", "no-break-after-first-admitted", "dependency/dependency.go", "possies = append(possies, possibility)\n\t\t\t\tbreak", "possies = append(possies, possibility)", "C06-SELECT"},
+	{"C06", "substvars-not-skipped", "dependency/dependency.go", "if possibility.Substvar {\n\t\t\t\tcontinue\n\t\t\t}\n\n\t\t\tif possibility.Architectures.Matches(&arch) {", "if possibility.Architectures.Matches(&arch) {", "C06-SELECT"},
+	{"C06", "is-drops-os-conjunct", "dependency/arch.go", "(arch.OS == other.OS || other.OS == \"any\") &&\n", "", "C06-IS"},
+	{"C06", "all-matches-any-cpu", "dependency/arch.go", "(arch.CPU == other.CPU || (arch.CPU != \"all\" && other.CPU == \"any\"))", "(arch.CPU == other.CPU || other.CPU == \"any\")", "C06-IS"},
+	// C07
+	{"C07", "comments-not-skipped", "control/parse.go", "if strings.HasPrefix(line, \"#\") {\n\t\t\tcontinue // skip comments\n\t\t}\n", "", "C07-LINES"},
+	{"C07", "crlf-not-blank", "control/parse.go", "if line == \"\\n\" || line == \"\\r\\n\" {", "if line == \"\\n\" {", "C07-LINES"},
+	{"C07", "tab-not-a-continuation", "control/parse.go", "if strings.HasPrefix(line, \" \") || strings.HasPrefix(line, \"\\t\") {", "if strings.HasPrefix(line, \" \") {", "C07-LINES"},
+	{"C07", "field-appended-without-lookup", "control/parse.go", "paragraph.Set(lastKey, value)", "paragraph.Order = append(paragraph.Order, lastKey)\n\t\tparagraph.Values[lastKey] = value", "C07-"},
+	{"C07", "orphan-continuation-stored", "control/parse.go", "if len(paragraph.Order) == 0 {\n\t\t\t\treturn nil, fmt.Errorf(\"Bad line: '%s' continues no field\", line)\n\t\t\t}\n", "", "C07-"},
+	{"C07", "all-returns-partial-list-with-error", "control/parse.go", "return []Paragraph{}, err", "return ret, err", "C07-ALL"},
+	{"C07", "last-line-without-newline-dropped", "control/parse.go", "if err == io.EOF && line != \"\" {\n\t\t\terr = nil\n\t\t\tline = line + \"\\n\"", "if false {\n\t\t\terr = nil\n\t\t\tline = line + \"\\n\"", "C07-LINES"},
+	// C08
+	{"C08", "terminal-newline-folded-again", "control/parse.go", "strings.Split(strings.TrimSuffix(p.Values[key], \"\\n\"), \"\\n\")", "strings.Split(p.Values[key], \"\\n\")", "C08-"},
+	{"C08", "empty-lines-not-dotted", "control/parse.go", "if strings.TrimSpace(lines[i]) == \"\" {\n\t\t\t\tlines[i] = \".\"\n\t\t\t}", "", "C08-"},
+	{"C08", "separator-never-written", "control/encode.go", "if e.alreadyWritten {", "if false {", "C08-SEP"},
+	{"C08", "flag-never-set", "control/encode.go", "e.alreadyWritten = true\n", "", "C08-SEP"},
+	// C09
+	{"C09", "uint-case-removed-from-decoder", "control/decode.go", "case reflect.Uint:\n\t\tif value == \"\" {\n\t\t\tfield.SetUint(0)\n\t\t\treturn nil\n\t\t}\n\t\tvalue, err := strconv.ParseUint(value, 10, 0)\n\t\tif err != nil {\n\t\t\treturn err\n\t\t}\n\t\tfield.SetUint(value)\n\t\treturn nil\n", "", "C09-KINDS"},
+	{"C09", "nil-guard-removed", "control/encode.go", "if field.IsNil() {\n\t\t\treturn \"\", nil\n\t\t}\n", "", "C09-NIL"},
+	{"C09", "encoder-writes-true", "control/encode.go", "return \"yes\", nil", "return \"true\", nil", "C09-KINDS"},
+	{"C09", "decoder-ignores-required", "control/decode.go", "if fieldType.Tag.Get(\"required\") == \"true\" {\n\t\t\t\treturn fmt.Errorf(", "if false {\n\t\t\t\treturn fmt.Errorf(", "C09-"},
+	{"C09", "update-receiver-and-argument-swapped", "control/encode.go", "para := foundParagraph.Update(Paragraph{Order: order, Values: values})", "np := Paragraph{Order: order, Values: values}\n\tpara := np.Update(foundParagraph)", "C09-MERGE"},
+	{"C09", "set-always-appends", "control/parse.go", "if _, found := p.Values[key]; found {", "if _, found := p.Values[key]; found && false {", "C09-MERGE"},
+	// C10
+	{"C10", "strip-removed-from-dsc-files", "control/dsc.go", "Files           []MD5FileHash    `control:\"Files\" delim:\"\\n\" strip:\"\\n\\r\\t \"`", "Files           []MD5FileHash    `control:\"Files\" delim:\"\\n\"`", "C10-TAGS"},
+	{"C10", "build-depends-indep-misspelt", "control/dsc.go", "`control:\"Build-Depends-Indep\"`\n\n\tChecksumsSha1", "`control:\"Build-Depends-InDep\"`\n\n\tChecksumsSha1", "C10-TAGS"},
+	{"C10", "changes-binary-split-on-comma", "control/changes.go", "`control:\"Binary\" delim:\" \"`", "`control:\"Binary\" delim:\",\"`", "C10-TAGS"},
+	{"C10", "hash-line-columns-swapped", "control/filehash.go", "c.Hash = vals[0]\n\t\tc.Size, err = strconv.ParseInt(vals[1], 10, 64)\n\t\tif err != nil {\n\t\t\treturn err\n\t\t}\n\t\tc.Filename = vals[2]", "c.Filename = vals[0]\n\t\tc.Size, err = strconv.ParseInt(vals[1], 10, 64)\n\t\tif err != nil {\n\t\t\treturn err\n\t\t}\n\t\tc.Hash = vals[2]", "C10-HASHLINE"},
+	{"C10", "sha1-type-tags-sha256", "control/filehash.go", "return c.unmarshalControl(\"sha1\", data)", "return c.unmarshalControl(\"sha256\", data)", "C10-"},
+	{"C10", "getpredepends-asks-for-depends", "control/index.go", "return index.getOptionalDependencyField(\"Pre-Depends\")", "return index.getOptionalDependencyField(\"Depends\")", "C10-ACCESS"},
+	{"C10", "maintainers-omit-maintainer", "control/dsc.go", "return append([]string{d.Maintainer}, d.Uploaders...)", "return append([]string{}, d.Uploaders...)", "C10-ACCESS"},
+	{"C10", "dsc-binary-strip-removed-again", "control/dsc.go", "`control:\"Binary\" delim:\",\" strip:\"\\n\\r\\t \"`", "`control:\"Binary\" delim:\",\"`", "C10-TAGS"},
+	// C11
+	{"C11", "verification-error-ignored", "control/parse.go", "if err != nil {\n\t\treturn err\n\t}\n\n\tp.signer = signer", "_ = err\n\n\tp.signer = signer", "C11-"},
+	{"C11", "reader-built-from-raw-input", "control/parse.go", "p.signer = signer\n\tp.reader = bufio.NewReader(bytes.NewBuffer(block.Bytes))", "p.signer = signer\n\tp.reader = bufio.NewReader(bytes.NewBuffer(signedData))", "C11-SAMEBYTES"},
+	{"C11", "plaintext-parsed-bytes-verified", "control/parse.go", "p.signer = signer\n\tp.reader = bufio.NewReader(bytes.NewBuffer(block.Bytes))", "p.signer = signer\n\tp.reader = bufio.NewReader(bytes.NewBuffer(block.Plaintext))", "C11-SAMEBYTES"},
+	{"C11", "decoder-error-ignored", "control/parse.go", "if err := ret.decodeClearsig(keyring); err != nil {\n\t\treturn nil, err\n\t}", "ret.decodeClearsig(keyring)", "C11-PROP"},
+	{"C11", "sniff-length-mismatch", "control/parse.go", "bufioReader.Peek(15)", "bufioReader.Peek(14)", "C11-PROP"},
+	// C12
+	{"C12", "size-counts-calls", "hashio/hash.go", "dh.size += int64(n)", "dh.size++", "C12-COUNT"},
+	{"C12", "sha1-wired-to-sha256", "hashio/hash.go", "return sha1.New(), nil", "_ = sha1.New\n\t\treturn sha256.New(), nil", "C12-ALG"},
+	{"C12", "close-always-nil", "control/filehash.go", "return fmt.Errorf(\"invalid hash: got %x, want %x\", got, v.want)", "return nil", "C12-CLOSE"},
+	{"C12", "target-left-out-of-multiwriter", "hashio/construct.go", "endWriter := io.MultiWriter(target, hw)", "endWriter := io.MultiWriter(hw)", "C12-FANOUT"},
+	{"C12", "sha512-field-typed-sha256-again", "control/index.go", "ChecksumsSha512 []SHA512FileHash", "ChecksumsSha512 []SHA256FileHash", "C12-FIELDTYPE"},
+	{"C12", "one-hasher-left-out", "hashio/construct.go", "hashers = append(hashers, hw)\n\t\twriters = append(writers, hw)\n\t}\n\n\tendWriter", "hashers = append(hashers, hw)\n\t\tif len(writers) == 0 {\n\t\t\twriters = append(writers, hw)\n\t\t}\n\t}\n\n\tendWriter", "C12-FANOUT"},
+	// C13
+	{"C13", "padding-term-dropped", "deb/ar.go", "d.offset += int64(count) + entry.Size + (entry.Size % 2)", "d.offset += int64(count) + entry.Size", "C13-OFFSET"},
+	{"C13", "data-starts-one-byte-early", "deb/ar.go", "io.NewSectionReader(d.in, d.offset+int64(count), entry.Size)", "io.NewSectionReader(d.in, d.offset+int64(count)-1, entry.Size)", "C13-OFFSET"},
+	{"C13", "size-columns-48-57", "deb/ar.go", "{\"Size\", &entry.Size, line[48:58]}", "{\"Size\", &entry.Size, line[48:57]}", "C13-COLS"},
+	{"C13", "trailing-slash-kept", "deb/ar.go", "strings.TrimSuffix(strings.TrimSpace(string(line[0:16])), \"/\")", "strings.TrimSpace(string(line[0:16]))", "C13-NAME"},
+	{"C13", "global-magic-seven-bytes", "deb/ar.go", "if string(header) != \"!<arch>\\n\" {", "if string(header[:7]) != \"!<arch>\" {", "C13-MAGIC"},
+	{"C13", "section-length-plus-one", "deb/ar.go", "d.offset+int64(count), entry.Size)", "d.offset+int64(count), entry.Size+1)", "C13-OFFSET"},
+	// C14
+	{"C14", "unknown-format-accepted", "deb/deb.go", "default:\n\t\treturn nil, fmt.Errorf(\"Unknown binary version: '%s'\", version)", "default:\n\t\treturn loadDeb2(contents)", "C14-FORMAT"},
+	{"C14", "xz-row-wired-to-gzip", "deb/tarfile.go", "\".xz\":   xzNewReader,", "\".xz\":   gzipNewReader,", "C14-CODECS"},
+	{"C14", "control-ext-sliced-at-7", "deb/deb.go", "deb.ControlExt = member.Name[8:len(member.Name)]", "deb.ControlExt = member.Name[7:len(member.Name)]", "C14-EXT"},
+	{"C14", "control-lookup-by-raw-name", "deb/deb.go", "if path.Clean(member.Name) == \"control\" {", "if _ = path.Clean; member.Name == \"control\" {", "C14-CONTROL"},
+	{"C14", "first-match-selector-again", "deb/deb.go", "if found != nil {\n\t\t\treturn nil, fmt.Errorf(\"More than one .deb member '%s*'\", prefix)\n\t\t}\n\t\tfound = member", "return member, nil", "C14-DET"},
+	// C15
+	{"C15", "negative-size-accepted-again", "deb/ar.go", "if entry.Size < 0 {\n\t\treturn nil, fmt.Errorf(\"failed to parse entry Size: negative size %d\", entry.Size)\n\t}\n", "", "C15-OFFSET"},
+	{"C15", "magic-and-again", "deb/ar.go", "if line[58] != 0x60 || line[59] != 0x0A {", "if line[58] != 0x60 && line[59] != 0x0A {", "C15-HDRMAGIC"},
+	{"C15", "short-read-test-removed", "deb/ar.go", "if count != 60 {\n\t\treturn nil, fmt.Errorf(\"Caught a short read at the end\")\n\t}\n", "", "C15-"},
+	{"C15", "header-columns-by-map-again", "deb/ar.go", "for _, target := range []entryField{\n\t\t{\"Timestamp\", &entry.Timestamp, line[16:28]},\n\t\t{\"OwnerID\", &entry.OwnerID, line[28:34]},\n\t\t{\"GroupID\", &entry.GroupID, line[34:40]},\n\t\t{\"Size\", &entry.Size, line[48:58]},\n\t} {", "for _, target := range map[int]entryField{\n\t\t0: {\"Timestamp\", &entry.Timestamp, line[16:28]},\n\t\t1: {\"OwnerID\", &entry.OwnerID, line[28:34]},\n\t\t2: {\"GroupID\", &entry.GroupID, line[34:40]},\n\t\t3: {\"Size\", &entry.Size, line[48:58]},\n\t} {", "C15-DET"},
+	{"C15", "log-fatal-on-bad-header", "deb/ar.go", "return nil, fmt.Errorf(\"Malformed file entry line endings\")", "panic(\"Malformed file entry line endings\")", "C15-NOFATAL"},
+	// C16
+	{"C16", "control-left-out-of-signed-stream", "deb/sigcheck.go", "io.MultiReader(binaryFlag.Data, control.Data, data.Data)", "io.MultiReader(binaryFlag.Data, data.Data)", "C16-STREAM"},
+	{"C16", "data-before-control", "deb/sigcheck.go", "io.MultiReader(binaryFlag.Data, control.Data, data.Data)", "io.MultiReader(binaryFlag.Data, data.Data, control.Data)", "C16-STREAM"},
+	{"C16", "control-not-rewound", "deb/sigcheck.go", "control.Data.Seek(0, 0)\n", "", "C16-STREAM"},
+	{"C16", "role-ignored", "deb/sigcheck.go", "deb.ArContent[`_gpg`+sigType]", "deb.ArContent[`_gpgorigin`]", "C16-ROLE"},
+	{"C16", "duplicate-names-overwrite-again", "deb/deb.go", "if _, dup := contents[member.Name]; dup {\n\t\t\treturn nil, fmt.Errorf(\"Archive contains more than one member '%s'\", member.Name)\n\t\t}\n", "", "C16-SAME"},
+	// C17
+	{"C17", "unexpected-eof-is-clean-eof-again", "changelog/changelog.go", "return nil, io.ErrUnexpectedEOF", "return nil, io.EOF", "C17-TABLE"},
+	{"C17", "every-error-is-eof", "changelog/changelog.go", "if err == io.EOF {\n\t\t\tbreak\n\t\t}\n\t\tif err != nil {\n\t\t\treturn ChangelogEntries{}, err\n\t\t}", "if err != nil {\n\t\t\tbreak\n\t\t}", "C17-"},
+	{"C17", "layout-without-numeric-zone", "changelog/changelog.go", "const whenLayout = time.RFC1123Z", "const whenLayout = time.RFC1123", "C17-TABLE"},
+	{"C17", "options-never-filled", "changelog/changelog.go", "changeLog.Arguments[trim(key)] = trim(value)", "_, _ = key, value", "C17-TABLE"},
+	{"C17", "trailer-split-on-one-blank", "changelog/changelog.go", "whom, when := partition(signoff, \"  \")", "whom, when := partition(signoff, \" \")", "C17-TABLE"},
+	{"C17", "last-line-needs-newline-again", "changelog/changelog.go", "if err == io.EOF && line != \"\" {\n\t\t\terr = nil\n\t\t}\n\t\tif err == io.EOF {", "if err == io.EOF {", "C17-TABLE"},
+	// C18
+	{"C18", "package-level-cache", "version/version.go", "func Parse(input string) (Version, error) {\n\tresult := Version{}", "var parseCache = map[string]Version{}\n\nfunc Parse(input string) (Version, error) {\n\tif v, ok := parseCache[input]; ok {\n\t\treturn v, nil\n\t}\n\tresult := Version{}\n\tdefer func() { parseCache[input] = result }()", "C18-GLOBALS"},
+	{"C18", "cursor-not-advanced-in-blank-eater", "dependency/parser.go", "case '\\r', '\\n', ' ', '\\t':\n\t\t\tinput.Next()\n\t\t\tcontinue", "case '\\r', '\\n', ' ', '\\t':\n\t\t\tcontinue", "C18-TERM"},
+	{"C18", "length-test-before-first-digit-removed", "version/version.go", "if len(result.Version) == 0 {\n\t\treturn fmt.Errorf(\"version number is empty\")\n\t}\n", "", "C18-BOUNDS"},
+	{"C18", "value-returned-with-error-again", "version/version.go", "if err := parseInto(&result, input); err != nil {\n\t\treturn Version{}, err\n\t}\n\treturn result, nil", "err := parseInto(&result, input)\n\treturn result, err", "C18-XOR"},
+	{"C18", "five-columns-not-checked", "control/changes.go", "if len(vals) < 5 {", "if len(vals) < 4 {", "C18-BOUNDS"},
+	{"C18", "fatal-on-bad-hash-line", "control/filehash.go", "return fmt.Errorf(\"Error: Unknown Debian Hash line: '%s'\", data)", "panic(\"Unknown Debian Hash line\")", "C18-NOPANIC"},
+	// C19
+	{"C19", "build-depends-indep-dropped", "control/dsc.go", "concreteBuildDepends = append(concreteBuildDepends, dsc.BuildDependsIndep.GetPossibilities(arch)...)\n", "", "C19-FIELDS"},
+	{"C19", "edge-direction-swapped", "control/dsc.go", "err := network.AddEdge(val, dsc.Source)", "err := network.AddEdge(dsc.Source, val)", "C19-FIELDS"},
+	{"C19", "addedge-error-ignored", "control/dsc.go", "err := network.AddEdge(val, dsc.Source)\n\t\t\t\tif err != nil {\n\t\t\t\t\treturn nil, err\n\t\t\t\t}", "network.AddEdge(val, dsc.Source)", "C19-ERR"},
+	{"C19", "all-possibilities-used", "control/dsc.go", "dsc.BuildDepends.GetPossibilities(arch)...", "dsc.BuildDepends.GetAllPossibilities()...", "C19-FIELDS"},
+	// C20
+	{"C20", "control-file-first", "control/dsc.go", "for _, file := range d.AbsFiles() {\n\t\tdirname := filepath.Base(file.Filename)\n\t\terr := internal.Copy(file.Filename, dest+\"/\"+dirname)\n\t\tif err != nil {\n\t\t\treturn err\n\t\t}\n\t}\n\n\tdirname := filepath.Base(d.Filename)\n\terr := internal.Copy(d.Filename, dest+\"/\"+dirname)", "dirname := filepath.Base(d.Filename)\n\terr := internal.Copy(d.Filename, dest+\"/\"+dirname)\n\tfor _, file := range d.AbsFiles() {\n\t\tdn := filepath.Base(file.Filename)\n\t\tif err := internal.Copy(file.Filename, dest+\"/\"+dn); err != nil {\n\t\t\treturn err\n\t\t}\n\t}\n", "C20-LAST"},
+	{"C20", "copy-error-skipped", "control/changes.go", "err := internal.Copy(file.Filename, dest+\"/\"+dirname)\n\t\tif err != nil {\n\t\t\treturn err\n\t\t}", "err := internal.Copy(file.Filename, dest+\"/\"+dirname)\n\t\tif err != nil {\n\t\t\tcontinue\n\t\t}", "C20-LAST"},
+	{"C20", "destination-from-listed-name", "control/dsc.go", "err := os.Rename(file.Filename, dest+\"/\"+dirname)", "_ = dirname\n\t\terr := os.Rename(file.Filename, dest+\"/\"+file.Filename)", "C20-DEST"},
+	{"C20", "names-not-checked-before-remove", "control/dsc.go", "func (d *DSC) Remove() error {\n\tif err := d.checkFiles(); err != nil {\n\t\treturn err\n\t}\n", "func (d *DSC) Remove() error {\n", "C20-SRC"},
+	{"C20", "cleanup-on-failure-removed", "internal/copy.go", "/* Don't leave a partial file behind */\n\t\tos.Remove(dest)\n", "", "C20-CLEAN"},
+	{"C20", "filename-field-decodable-again", "control/dsc.go", "Filename string `control:\"-\"`", "Filename string", "C20-HANDLEFIELD"},
+}
+
+type controlResult struct {
+	Name    string `json:"name"`
+	Applied bool   `json:"applied"`
+	Fired   bool   `json:"fired"`
+	Rule    string `json:"rule"`
+	Detail  string `json:"detail"`
+}
+
+func controlsFor(prop string) []control {
+	var out []control
+	for _, c := range controlTable {
+		if c.Prop == prop {
+			out = append(out, c)
+		}
+	}
+	// seeded changes for this property (their own check must catch them)
+	dirs, _ := filepath.Glob(filepath.Join(verifDir(), "seeded", prop+"-*"))
+	sort.Strings(dirs)
+	for _, d := range dirs {
+		if _, err := os.Stat(filepath.Join(d, "patch.diff")); err == nil {
+			out = append(out, control{Prop: prop, Name: "seeded:" + filepath.Base(d), File: "@patch:" + filepath.Join(d, "patch.diff")})
+		}
+	}
+	return out
+}
+
+// overlayFor builds the in-memory file contents for a control.
+func overlayFor(c control) (map[string][]byte, string) {
+	if strings.HasPrefix(c.File, "@patch:") {
+		patch := strings.TrimPrefix(c.File, "@patch:")
+		// apply the patch to copies of the touched files in a temp dir
+		tmp, err := os.MkdirTemp("", "gdsa-ctl")
+		if err != nil {
+			return nil, err.Error()
+		}
+		defer os.RemoveAll(tmp)
+		pb, err := os.ReadFile(patch)
+		if err != nil {
+			return nil, err.Error()
+		}
+		var files []string
+		for _, l := range strings.Split(string(pb), "\n") {
+			if strings.HasPrefix(l, "+++ b/") {
+				files = append(files, strings.TrimPrefix(l, "+++ b/"))
+			}
+		}
+		for _, f := range files {
+			src, err := os.ReadFile(filepath.Join(repoDir(), f))
+			if err != nil {
+				return nil, err.Error()
+			}
+			os.MkdirAll(filepath.Dir(filepath.Join(tmp, f)), 0o755)
+			os.WriteFile(filepath.Join(tmp, f), src, 0o644)
+		}
+		cmd := exec.Command("patch", "-p1", "-s", "-i", patch)
+		cmd.Dir = tmp
+		if out, err := cmd.CombinedOutput(); err != nil {
+			return nil, "patch does not apply: " + strings.TrimSpace(string(out))
+		}
+		ov := map[string][]byte{}
+		for _, f := range files {
+			b, _ := os.ReadFile(filepath.Join(tmp, f))
+			ov[filepath.Join(repoDir(), f)] = b
+		}
+		return ov, ""
+	}
+	path := filepath.Join(repoDir(), c.File)
+	src, err := os.ReadFile(path)
+	if err != nil {
+		return nil, err.Error()
+	}
+	if strings.Count(string(src), c.Old) != 1 {
+		return nil, fmt.Sprintf("the text to replace occurs %d times in %s", strings.Count(string(src), c.Old), c.File)
+	}
+	return map[string][]byte{path: []byte(strings.Replace(string(src), c.Old, c.New, 1))}, ""
+}
+
+// runControl runs one control in this process and prints a JSON result.
+func runControl(prop, name string) int {
+	var ctl *control
+	for _, c := range controlsFor(prop) {
+		if c.Name == name {
+			cc := c
+			ctl = &cc
+		}
+	}
+	res := controlResult{Name: name}
+	emit := func() int {
+		b, _ := json.Marshal(res)
+		fmt.Println(string(b))
+		return 0
+	}
+	if ctl == nil {
+		res.Detail = "no such control"
+		return emit()
+	}
+	ov, why := overlayFor(*ctl)
+	if ov == nil {
+		res.Detail = why
+		return emit()
+	}
+	p, err := LoadRepo("", ov)
+	if err != nil {
+		res.Detail = "does not compile: " + err.Error()
+		return emit()
+	}
+	res.Applied = true
+	rp := NewReport(prop, "quick")
+	func() {
+		defer func() {
+			if r := recover(); r != nil {
+				rp.Errorf("engine panic: %v", r)
+			}
+		}()
+		// rules that re-load the repository themselves (GOARCH=386 load) must see the overlay too
+		activeOverlay = ov
+		registry[prop](p, rp)
+	}()
+	for _, r := range rp.Rules {
+		for _, in := range r.Instances {
+			if in.Status == "ok" {
+				continue
+			}
+			if ctl.Rule == "" || strings.HasPrefix(r.ID, ctl.Rule) {
+				if !res.Fired || (res.Rule != "" && in.Status == "violated") {
+					res.Fired = true
+					res.Rule = r.ID
+					res.Detail = "[" + in.Status + "] " + in.Construct + ": " + in.Detail
+				}
+			}
+		}
+		if len(r.Instances) < r.Floor && (ctl.Rule == "" || strings.HasPrefix(r.ID, ctl.Rule)) && !res.Fired {
+			res.Fired = true
+			res.Rule = r.ID
+			res.Detail = "rule went vacuous (instances below the floor)"
+		}
+	}
+	if !res.Fired && len(rp.errors) > 0 {
+		res.Fired = true
+		res.Rule = "ENGINE"
+		res.Detail = rp.errors[0]
+	}
+	if len(res.Detail) > 400 {
+		res.Detail = res.Detail[:400]
+	}
+	return emit()
+}
+
+var activeOverlay map[string][]byte
+
+// runControls (thorough tier): every control in its own subprocess, 8 at a time.
+func runControls(prop string, rp *Report) {
+	ctls := controlsFor(prop)
+	r := rp.Rule(prop+"-CONTROLS", "negative controls: each seeded edit of go-debian's source must make a rule of this property fire", 0)
+	exe, err := os.Executable()
+	if err != nil {
+		rp.Errorf("controls: %v", err)
+		return
+	}
+	results := make([]controlResult, len(ctls))
+	var wg sync.WaitGroup
+	sem := make(chan struct{}, 8)
+	for i, c := range ctls {
+		wg.Add(1)
+		go func(i int, c control) {
+			defer wg.Done()
+			sem <- struct{}{}
+			defer func() { <-sem }()
+			cmd := exec.Command(exe, "control", prop, c.Name)
+			cmd.Env = os.Environ()
+			out, err := cmd.Output()
+			res := controlResult{Name: c.Name}
+			if err != nil {
+				res.Detail = "subprocess failed: " + err.Error()
+			} else {
+				lines := strings.Split(strings.TrimSpace(string(out)), "\n")
+				if jerr := json.Unmarshal([]byte(lines[len(lines)-1]), &res); jerr != nil {
+					res.Detail = "bad output: " + string(out)
+				}
+			}
+			results[i] = res
+		}(i, c)
+	}
+	wg.Wait()
+	fired, skipped := 0, 0
+	for _, res := range results {
+		key := "control:" + res.Name
+		switch {
+		case !res.Applied:
+			skipped++
+			r.ok(key, "", "not applicable to the current source (skipped): "+res.Detail)
+		case res.Fired:
+			fired++
+			r.ok(key, "", "fires "+res.Rule+": "+res.Detail)
+		default:
+			r.bad(key, "", "the edit compiles but no rule of "+prop+" reports it: the check has a blind spot here", nil)
+		}
+	}
+	rp.Extra["negative_controls"] = map[string]int{"total": len(results), "fired": fired, "skipped": skipped}
+}
+
+
+// ---- canary ------------------------------------------------------------------------------
+
+func startCanary(prop string) chan controlResult {
+	ch := make(chan controlResult, 1)
+	var first *control
+	for _, c := range controlTable {
+		if c.Prop == prop {
+			cc := c
+			first = &cc
+			break
+		}
+	}
+	if first == nil || os.Getenv("GDSA_NO_CANARY") != "" {
+		ch <- controlResult{Name: "(none)"}
+		return ch
+	}
+	exe, err := os.Executable()
+	if err != nil {
+		ch <- controlResult{Name: first.Name, Detail: err.Error()}
+		return ch
+	}
+	go func() {
+		cmd := exec.Command(exe, "control", prop, first.Name)
+		cmd.Env = append(os.Environ(), "GDSA_NO_CANARY=1")
+		out, err := cmd.Output()
+		res := controlResult{Name: first.Name}
+		if err != nil {
+			res.Detail = "subprocess failed: " + err.Error()
+		} else {
+			lines := strings.Split(strings.TrimSpace(string(out)), "\n")
+			if jerr := json.Unmarshal([]byte(lines[len(lines)-1]), &res); jerr != nil {
+				res.Detail = "bad output"
+			}
+		}
+		ch <- res
+	}()
+	return ch
+}
+
+func finishCanary(prop string, rp *Report, ch chan controlResult) {
+	res := <-ch
+	if res.Name == "(none)" {
+		return
+	}
+	r := rp.Rule(prop+"-CANARY", "a seeded violation (negative control '"+res.Name+"', applied in memory) must be reported on every run", 1)
+	switch {
+	case !res.Applied:
+		r.ok("canary:"+res.Name, "", "not applicable to the current source (the edited text is gone): "+res.Detail)
+	case res.Fired:
+		r.ok("canary:"+res.Name, "", "fires "+res.Rule+": "+res.Detail)
+		r.Canary = "fired"
+	default:
+		r.Canary = "silent"
+		r.ok("canary:"+res.Name, "", "silent")
+	}
+}
